@@ -18,7 +18,7 @@ RULE = (
     "fails with OSError} x durability {all written data survives; unsynced data lost -> synced prefix / cut in "
     "the unsynced tail / unsynced tail zero-filled}. After the fault a fresh gateway loads the directory: no "
     "exception, state in {S0, S1} (for 'no file': empty or S1); then one more complete save of S1 + load = S1. "
-    "For a failing operation the dirty flag must still be set unless the new file is fully in place. "
+    "For a failing operation the dirty flag must still be set unless the new file is fully in place; after a failing rename / remove the NEXT save is enumerated as well (process dies before each of its operations). "
     "Non-trivial = fault strictly inside the sequence with S0 != S1 and S0 non-empty; distinct by "
     "(state hash, format, prior, k, mode, durability variant)."
 )
@@ -194,7 +194,52 @@ def one_fault(setup, s1, k, mode, stats, n_ops):
                 {"ext": setup.ext, "prior": setup.prior, "op": f"{k}/{n_ops} {opname}", "mode": mode, "variant": vname, "loaded": "new" if got == s1 else "old"} if (k * 7 + len(vname)) % 41 == 0 else None,
                 labels=(setup.ext, mode, "lost" if vname != "kept" else "kept", "op-" + layer.trace[k][0]),
             )
+    if mode == "fail" and layer.trace[k][0] in ("rename", "remove") and raised is not None:
+        evaluations += second_save_faults(setup, s1, snapshot, drv, where, case, stats)
     return evaluations
+
+
+def second_save_faults(setup, s1, snapshot, drv, where, case, stats):
+    """A rename / remove of the save failed and the process lives on: the directory it left behind is the prior
+    configuration of the NEXT save (e.g. no main file, backup, complete temp file). That save is a save like any
+    other: the process may die before each of its operations, and start-up must still find a complete state."""
+    pers = drv.gw.tasks.persistence
+    persist.restore(setup.tmp, snapshot)
+    pers.need_save = True
+    with faultfs.Layer() as probe:
+        try:
+            pers.save_sensors()
+        except Exception as exc:  # pylint: disable=broad-except
+            raise Violation(f"next_save_raises.{setup.ext}", case, f"{where}: the save after the failed one raised {type(exc).__name__}: {exc}") from exc
+    count = 0
+    for k2 in range(len(probe.trace)):
+        persist.restore(setup.tmp, snapshot)
+        pers.need_save = True
+        plan = faultfs.FaultPlan(k2, "crash_before")
+        with faultfs.Layer(plan) as layer2:
+            try:
+                pers.save_sensors()
+            except faultfs.Crash:
+                pass
+            except Exception as exc:  # pylint: disable=broad-except
+                raise Violation(f"next_save_raises.{setup.ext}", dict(case, k2=k2), f"{where}, then crash before op {k2}: save raised {exc!r}") from exc
+        if not plan.fired:
+            continue
+        count += 1
+        op2 = layer2.trace[k2][0] + ":" + layer2.trace[k2][1]
+        try:
+            loaded = persist.fresh_load(setup.version, setup.path)
+        except Exception as exc:  # pylint: disable=broad-except
+            raise Violation(f"load_after_fault_raises.{setup.ext}", dict(case, k2=k2), f"{where}, then the process died before op {k2} {op2} of the next save: start-up load raised {type(exc).__name__}: {exc}") from exc
+        got = drive.typed(drive.projection(loaded.gw))
+        if got not in (setup.s0, s1):
+            raise Violation(
+                f"state_lost_after_second_fault.{setup.ext}", dict(case, k2=k2),
+                f"{where}, then the process died before op {k2} {op2} of the next save: loaded state is {'empty' if not got else 'partial/mixed'} (files: {sorted(persist.listing(setup.tmp))})",
+            )
+        if stats is not None:
+            stats.case(f"{common.chash([setup.case['old'], setup.case['extra'], setup.ext])}:{setup.prior}:{case['k']}:2nd:{k2}", None, labels=(setup.ext, "second-save-fault"))
+    return count
 
 
 def check_case(case, stats=None, priors=PRIORS, only=None, collect=None, part=(0, 1)):
